@@ -26,6 +26,7 @@ func init() {
 			ruleClosuresShareNothing(c, "R2d")
 			rulePool(c, "R3")
 			ruleConcatRank(c, "R4")
+			ruleSummaryByBuilder(c, "R5")
 		},
 	})
 }
@@ -1135,7 +1136,7 @@ func rulePoolReleaseOnce(c *Ctx, rule string) {
 	rulePool(cc, "X")
 	c.R.Rule(c.R.Property+"."+rule, 3, "a request's context is its own: released exactly once, never used after the release")
 	for _, o := range sub.Obls {
-		if strings.HasSuffix(o.Rule, ".Xd") || strings.HasSuffix(o.Rule, ".Xe") {
+		if strings.HasSuffix(o.Rule, ".Xd") || strings.HasSuffix(o.Rule, ".Xe") || strings.HasSuffix(o.Rule, ".Xb") || strings.HasSuffix(o.Rule, ".Xc") {
 			c.R.Add(rule, o.Func, o.Construct, o.At, o.OK, o.Msg)
 		}
 	}
